@@ -86,6 +86,13 @@ theorem drain_eq (s : State κ ν) : ∀ (n : Nat) (e : Enum κ ν), (remaining 
 theorem enumAll_eq_remaining (s : State κ ν) : enumAll s = remaining s (enumStart s) := by
   simp [enumAll, remaining, enumStart]
 
+/-- a re-bound enumerator is a fresh one: nothing of its previous sweep survives -/
+theorem enumRebind_eq_start (s : State κ ν) (e : Enum κ ν) : enumRebind s e = enumStart s := rfl
+
+/-- a default-constructed enumerator delivers nothing, on any table (`m_Index = 0`, `m_Set` never read) -/
+theorem enumNext_default (s : State κ ν) : (enumNext s (enumDefault : Enum κ ν)).2 = none := by
+  simp [enumNext, enumDefault, advance]
+
 theorem flatMap_getD_range : ∀ (t : List (List (Entry κ ν))),
     (List.range t.length).flatMap (fun b => t.getD b []) = t.flatten
   | [] => by simp
